@@ -62,10 +62,11 @@ class TaskGroup(TaskConstraint):
             self._scheduled_assertion = []
 
         for task in self.list_of_tasks:
-            self._scheduled_assertion += [
-                task._start >= self._start,
-                task._end <= self._end,
-            ]
+            task_in_group = z3.And(task._start >= self._start, task._end <= self._end)
+            if task.optional:
+                # an optional task that is not scheduled does not belong to the group
+                task_in_group = z3.Implies(task._scheduled, task_in_group)
+            self._scheduled_assertion.append(task_in_group)
 
 
 class UnorderedTaskGroup(TaskGroup):
@@ -85,19 +86,27 @@ class OrderedTaskGroup(TaskGroup):
     def __init__(self, **data) -> None:
         super().__init__(**data)
         # add a constraint between each task
-        for i in range(len(self.list_of_tasks) - 1):
-            if self.kind == "lax":
-                self._scheduled_assertion += [
-                    self.list_of_tasks[i]._end <= self.list_of_tasks[i + 1]._start
-                ]
-            elif self.kind == "strict":
-                self._scheduled_assertion += [
-                    self.list_of_tasks[i]._end < self.list_of_tasks[i + 1]._start
-                ]
-            else:  # kind == 'tight':
-                self._scheduled_assertion += [
-                    self.list_of_tasks[i]._end == self.list_of_tasks[i + 1]._start
-                ]
+        nb_tasks = len(self.list_of_tasks)
+        for i in range(nb_tasks - 1):
+            for j in range(i + 1, nb_tasks):
+                task_i, task_j = self.list_of_tasks[i], self.list_of_tasks[j]
+                tasks_between = self.list_of_tasks[i + 1 : j]
+                if any(not task.optional for task in tasks_between):
+                    # a mandatory task lies in between: the order follows by transitivity
+                    break
+                if self.kind == "lax":
+                    order_assertion = task_i._end <= task_j._start
+                elif self.kind == "strict":
+                    order_assertion = task_i._end < task_j._start
+                else:  # kind == 'tight':
+                    order_assertion = task_i._end == task_j._start
+                # the order applies to two scheduled tasks that follow each other,
+                # i.e. when the optional tasks in between are not scheduled
+                guards = [task._scheduled for task in (task_i, task_j) if task.optional]
+                guards += [z3.Not(task._scheduled) for task in tasks_between]
+                if guards:
+                    order_assertion = z3.Implies(z3.And(guards), order_assertion)
+                self._scheduled_assertion.append(order_assertion)
 
         self.set_z3_assertions(z3.And(self._scheduled_assertion))
 
